@@ -77,7 +77,8 @@ impl XmlWorld {
 
     fn gen_case(&self, rng: &mut Rng, thorough: bool) -> (XmlCase, Option<String>) {
         let size = pick_size(rng, thorough);
-        let mut input = gen_xml(rng, size);
+        let scale = rng.chance(1, if self.prop == XProp::C15 { 100 } else { 250 });
+        let mut input = if scale { crate::gen_xml::gen_xml_scale(rng) } else { gen_xml(rng, size) };
         let mut opts = XOpts::default();
         if rng.chance(1, 4) {
             opts.exact_errors = true;
@@ -245,8 +246,8 @@ impl XmlWorld {
                         (r, case.clone())
                     },
                 };
-                let oa = run_xml(&a, false);
-                let ob = run_xml(&b, false);
+                let (oa, ob) = crate::world::run_pair("the reference side", "the compared side", || run_xml(&a, false), || run_xml(&b, false))
+                    .map_err(|v| Violation::new(if self.prop == XProp::C08 { "option-changes-outcome" } else { "xml-outcome-differs-panic" }, format!("mode {}: {}", m, v.detail)))?;
                 *digest = ob.digest;
                 add_stats(stats, &ob);
                 if matches!(case.pipeline, XPipeline::Tree | XPipeline::Driver) {
